@@ -83,7 +83,7 @@ def check_case(case):
                     sample={"tick": tick, "prices": case["prices"][:8]})
 
 
-PARTS = {"direct": {"check": check_case, "strategy": lambda tier: cases(), "budget": {"quick": 4000, "thorough": 150000}}}
+PARTS = {"direct": {"check": check_case, "strategy": lambda tier: cases(), "budget": {"quick": 12000, "thorough": 150000}}}
 
 
 def vacuity(merged, tier):
